@@ -62,7 +62,7 @@ def gen(rng, tier, index):
             kind = rng.choice(["other_prefix", "fewer", "more_before", "more_after", "out_prefix", "prefix_as_suffix", "no_prefix", "empty_levels", "short_raw"])
             ops.append(["foreign", kind, f"{nid};{cid};1;0;{rng.choice([0, 2])};1", rng.choice([0, 1])])
         elif roll < 0.88:
-            ops.append(["set", nid, cid, rng.choice([0, 2, 24, 24]), rng.choice(["1", "0", "x y", "22", "28/09/2026", "a/b", "/", "http://x/y?z=1", ""]), rng.choice([0, 1])])
+            ops.append(["set", nid, cid, rng.choice([0, 2, 24, 24]), rng.choice(["1", "0", "x y", "22", "28/09/2026", "a/b", "/", "http://x/y?z=1", "", "  12:30", "\tindented", " /"]), rng.choice([0, 1])])
         elif roll < 0.94:
             ops.append(["dup", f"{nid};{cid};1;1;24;dup", 1])
         else:
@@ -86,6 +86,8 @@ def gen(rng, tier, index):
     ops.append(["probe"])
     cfg = {"flavour": flavour, "version": version, "in_prefix": in_prefix, "out_prefix": out_prefix, "retain": rng.choice([True, False]),
            "persistence": persist, "sched": sched}
+    if persist and rng.random() < 0.2:
+        cfg["slow_load"] = rng.choice([0.5, 4.9, 5.5, 12.0, 61.0])
     if rng.random() < 0.25:
         cfg["pub_raise"] = sorted(rng.sample(range(30), 4))
     if rng.random() < 0.25:
@@ -361,7 +363,13 @@ def run(case):
                                                    exc=type(box["exc"]).__name__))
                             break
                     else:
+                        if cfg.get("slow_load"):
+                            # the medium is slow: reading the file back takes a while (the restore is not done sooner)
+                            world.fs.read_delays[world.fs.norm(f"/work/ms.{cfg['persistence']}")] = cfg["slow_load"]
+                            probes["slow_restores"] = probes.get("slow_restores", 0) + 1
                         world.start(persistence=True)
+                        if cfg.get("slow_load"):
+                            world.advance(cfg["slow_load"] + 1.0)  # whatever still reads the file has finished by now
                     health("restart")
                     restored = {nid: set(s.children) for nid, s in gateway.sensors.items()}
                     if restored != {k: v for k, v in presented.items()}:
